@@ -174,8 +174,8 @@ def run(chk):
     chk.require("R1 https gate", "R1|web-rows", len(rows.get("Web", [])) >= 1, where(ad), "no accepting web rows")
     for arm, lst in sorted(rows.items()):
         # group verdicts per arm and clause (obligation keys are per public anchor + clause, not per row)
-        r1 = r2 = r3 = r4 = r5 = r6 = True
-        w1 = w2 = w3 = w4 = w5 = w6 = ""
+        r1 = r2 = r3 = r4 = r5 = r6 = r5e = True
+        w1 = w2 = w3 = w4 = w5 = w6 = w5e = ""
         n4 = 0
         for o in lst:
             payload = dict(o.value[3]).get("0") if o.value and o.value[0] == "agg" else None
@@ -208,6 +208,11 @@ def run(chk):
             if tpsl is not None and payload is not None and not flow.term_contains(tpsl, lambda x: x == payload):
                 r5 = False
                 w5 = "registrable-domain test at %s is applied to a value other than the effective RP ID %s" % (site, flow.term_str(payload))
+            if tpsl is not None and flow.term_contains(tpsl, lambda x: is_callee(x, "idna::domain_to_unicode")):
+                # the table of the public-suffix crate is punycode (its generator applies ToASCII, its documentation
+                # requires ASCII input): a name decoded to Unicode never matches an internationalised suffix rule
+                r5e = False
+                w5e = "effective_tld_plus_one at %s is applied to the Unicode form of the RP ID (idna::domain_to_unicode): internationalised public suffixes (xn--55qx5d.cn = 公司.cn) are not recognised and are accepted as RP IDs" % site
             if (eq or flag) and not local and tpsl is None:
                 r3 = False
                 w3 = "row bypasses the checks with only part of the localhost gate (eq=%s flag=%s)" % (eq, flag)
@@ -247,6 +252,7 @@ def run(chk):
         chk.ob("R3 localhost gate", "R3|assert_domain|%s" % arm, r3, site, w3 or "rows bypassing https/PSL require == \"localhost\" and allows_insecure_localhost")
         chk.ob("R4 label-aware suffix", "R4|assert_domain|%s" % arm, r4 and n4 > 0, site, w4 or ("no rows with a supplied RP ID" if n4 == 0 else ""))
         chk.ob("R5 registrable domain", "R5|assert_domain|%s" % arm, r5, site, w5 or "every non-localhost accepting row requires effective_tld_plus_one(effective RP ID) to succeed")
+        chk.ob("R5 registrable domain", "R5|assert_domain|%s|lookup-in-table-encoding" % arm, r5e, site, w5e or "the public-suffix lookup is applied to the ASCII (punycode) form of the effective RP ID")
         chk.ob("R6 binding", "R6c|assert_domain|%s" % arm, r6, site, w6 or "Ok payload is the rp_id argument when supplied, else the origin host")
 
     # is_valid_rp_id
@@ -342,6 +348,6 @@ def run(chk):
     # the default-features build has no Android origin: one group less in R3..R6
     chk.floor("R3", 3, default=2)
     chk.floor("R4", 2, default=1)
-    chk.floor("R5", 4, default=3)
+    chk.floor("R5", 6, default=4)
     chk.floor("R6", 8, default=7)
     chk.assumptions = ["url::Url::domain/scheme and idna behave as documented", "the PSL data itself is C10", "string semantics of the suffix test beyond separator evidence are not decided"]
